@@ -533,27 +533,33 @@ def _has_quant(t):
 
 
 def run_solver_file(path, solver, timeout_s):
-    """Returns (verdict, seconds, raw_output)."""
+    """Returns (verdict, seconds, raw_output).  The budget is CPU time of the solver process (RLIMIT_CPU, whole seconds, rounded up), not wall-clock
+    time: a query that needs one second of work gets it whether or not the other cores are busy, so a verdict does not depend on the load of the
+    machine.  The solvers' own wall-clock limits are set to four times the budget (+5 s) as a backstop only."""
     t0 = time.time()
+    cpu_s = max(1, int(-(-timeout_s // 1)))
+    wall_s = 4 * cpu_s + 5
     if solver == "z3":
-        cmd = [Z3_NEW, "-T:%d" % max(1, int(timeout_s)), path]
+        cmd = [Z3_NEW, "-T:%d" % wall_s, path]
     elif solver == "z3-old":
-        cmd = ["/usr/bin/z3", "-T:%d" % max(1, int(timeout_s)), path]
+        cmd = ["/usr/bin/z3", "-T:%d" % wall_s, path]
     elif solver == "cvc5":
-        cmd = [CVC5, "--strings-exp", "--tlimit=%d" % int(timeout_s * 1000), path]
+        cmd = [CVC5, "--strings-exp", "--tlimit=%d" % (wall_s * 1000), path]
     elif solver == "cvc5-fmf":
-        cmd = [CVC5, "--strings-exp", "--strings-fmf", "--produce-models",
-               "--tlimit=%d" % int(timeout_s * 1000), path]
+        cmd = [CVC5, "--strings-exp", "--strings-fmf", "--produce-models", "--tlimit=%d" % (wall_s * 1000), path]
     else:
         raise ValueError(solver)
+    cmd = ["/bin/sh", "-c", 'ulimit -t %d; exec "$@"' % cpu_s, "sh"] + cmd
     try:
-        p = subprocess.run(cmd, capture_output=True, text=True, timeout=timeout_s + 5)
+        p = subprocess.run(cmd, capture_output=True, text=True, timeout=wall_s + 5)
         out = (p.stdout or "") + (p.stderr or "")
     except subprocess.TimeoutExpired:
         return "unknown", time.time() - t0, "timeout(kill)"
     first = out.strip().splitlines()[0].strip() if out.strip() else ""
     if first in ("sat", "unsat", "unknown"):
         return first, time.time() - t0, out[:2000]
+    if p.returncode in (-9, -24, 137, 152):  # SIGKILL / SIGXCPU: the CPU-time limit
+        return "unknown", time.time() - t0, "cpu limit %d s" % cpu_s
     if "timeout" in out or "interrupted" in out:
         return "unknown", time.time() - t0, out[:500]
     return "error", time.time() - t0, out[:2000]
